@@ -84,6 +84,19 @@ package indexer
 //@   ensures err == nil ==> has(i.blockIDToHeight, blkID) && has(i.blockHeightToBlock, i.blockIDToHeight[blkID]) && result0 == i.blockHeightToBlock[i.blockIDToHeight[blkID]]
 //@   ensures !has(i.blockIDToHeight, blkID) ==> err != nil
 
+// a transaction is reported only from a cached block: the entry of the transaction cache names a
+// cached height and a position inside that block, and the answer is that block's transaction,
+// timestamp and result at that position
+//@ func (*Indexer).GetTransaction props C31
+//@   opt monitor i.mu
+//@   requires forall g uint64 :: has(i.blockHeightToBlock, g) ==> !isnil(i.blockHeightToBlock[g]) && !isnil(i.blockHeightToBlock[g].Block) && !isnil(i.blockHeightToBlock[g].ExecutionResults)
+//@   requires forall q ids.ID :: has(i.txCache, q) ==> i.txCache[q].index >= 0
+//@   ensures result0 ==> err == nil && has(i.txCache, txID) && has(i.blockHeightToBlock, i.txCache[txID].blkHeight)
+//@   ensures result0 ==> i.txCache[txID].index < len(i.blockHeightToBlock[i.txCache[txID].blkHeight].Block.Txs) && result1 == i.blockHeightToBlock[i.txCache[txID].blkHeight].Block.Txs[i.txCache[txID].index]
+//@   ensures result0 ==> result2 == i.blockHeightToBlock[i.txCache[txID].blkHeight].Block.Tmstmp && result3 == i.blockHeightToBlock[i.txCache[txID].blkHeight].ExecutionResults.Results[i.txCache[txID].index]
+//@   ensures !has(i.txCache, txID) ==> !result0 && err == nil
+//@   ensures has(i.txCache, txID) && !has(i.blockHeightToBlock, i.txCache[txID].blkHeight) ==> !result0 && err == nil
+
 // the block is persisted under its own height and only the record of height-window is deleted
 //@ spec func bkey(h int) bytes = str(blockEntryKey(h))
 //@ func blockEntryKey props C31
